@@ -64,6 +64,8 @@ def norm(t):
     if k == 'call' and called(t[1], *LEN_FNS) and len(t[2]) == 1:
         b0 = base_of(t[2][0])
         from pat import slice_tail1
+        if b0[0] == 'field' and b0[1][0] == 'downcast' and b0[1][2] == 'Some' and is_call(b0[1][1], 'slice::get', '::get'):
+            return norm_slice_len(b0)
         tl = slice_tail1(b0)
         if tl is not None and not is_call(b0, 'Index::index'):
             return ('bin', 'Sub', _len_of(norm(base_of(tl))), ('const', 1, 'usize'))     # len(s.split_first()?.1) = len(s) - 1
@@ -73,6 +75,8 @@ def norm(t):
     if k == 'len':
         b0 = base_of(t[1])
         if is_call(b0, 'Index::index') and len(b0[2]) == 2 and index_ranges(b0[2][1])[0] == 'range':
+            return norm_slice_len(b0)
+        if b0[0] == 'field' and b0[1][0] == 'downcast' and b0[1][2] == 'Some' and is_call(b0[1][1], 'slice::get', '::get'):
             return norm_slice_len(b0)
         return _len_of(norm(b0))
     if k == 'bin':
@@ -180,7 +184,7 @@ class Knowledge:
         if n.endswith(('Option::ok_or', 'Result::ok', 'Result::map_err', 'Option::ok_or_else', 'Option::map', 'Result::map', 'Option::copied', 'Option::cloned')):
             self.success(x[2][0])
         elif n.endswith('::get') or n.endswith('::get_mut'):
-            base = ('len', norm(base_of(x[2][0])))
+            base = norm(('len', base_of(x[2][0])))
             ir = index_ranges(x[2][1]) if len(x[2]) > 1 else None
             if ir is None:
                 return
@@ -945,6 +949,16 @@ def norm_slice_len(src):
             lo_t = ('const', 0, 'usize') if lo is None else norm(lo)
             return ('bin', 'Sub', hi_t, lo_t)
         return None
+    # payload of a successful `base.get(a..b)`, read directly from the matched Some(..): length b - a
+    if s[0] == 'field' and s[1][0] == 'downcast' and s[1][2] == 'Some' and s[1][1][0] == 'call' and canon(s[1][1][1]).endswith('::get') and len(s[1][1][2]) == 2:
+        g_ = s[1][1]
+        ir = index_ranges(g_[2][1])
+        L = norm(('len', base_of(g_[2][0])))
+        if ir[0] == 'range':
+            _, lo, hi, inc = ir
+            hi_t = L if hi is None else (norm(hi) if not inc else ('bin', 'Add', norm(hi), ('const', 1, 'usize')))
+            lo_t = ('const', 0, 'usize') if lo is None else norm(lo)
+            return ('bin', 'Sub', hi_t, lo_t)
     # payload of a successful `base.get(a..b)` (through ok_or / `?`): length b - a
     from pat import unwrap_ok
     prod, chain = unwrap_ok(s)
